@@ -71,9 +71,10 @@ PROPS = {
             {"name": "buf", "args": []},
             {"name": "buf-exh", "args": []},
             {"name": "exec", "args": ["INPUT.,OUTPUT.", "600" if tier == "quick" else "6000"]},
+            {"name": "unreg", "args": []},
         ],
         "signature": lambda req: " ".join(req.split(" ")[1:4]) if req.startswith("( bufseq") else sig_exec(req),
-        "rule": "PushBuffer<i32>: every word of length 7 (quick) / 9 (thorough) over {push, push_force, pop, flush} for capacities 1..4 and both kinds, each followed by a probe of every observer, plus random sequences (<=500 ops, capacities 1..5, many wrap-arounds); the live items (iter) and the printed form are compared after every operation; INPUT.*/OUTPUT.* instructions by NAME on generated states with 0..3 queued messages incl. empty bodies; non-trivial = a sequence in which some operation returned an item / a transition that changed the state",
+        "rule": "PushBuffer<i32>: every word of length 7 (quick) / 9 (thorough) over {push, push_force, pop, flush} for capacities 1..4 and both kinds, each followed by a probe of every observer, plus random sequences (<=500 ops, capacities 1..5, many wrap-arounds); the live items (iter) and the printed form are compared after every operation; INPUT.*/OUTPUT.* instructions by NAME on generated states with 0..3 queued messages incl. empty bodies; `unreg`: INPUT.FLUSH, the public instruction function input_flush that load_io_instructions does not register, registered by the host (InstructionSet::add) and run on generated states with fresh and aged INPUT queues; non-trivial = a sequence in which some operation returned an item / a transition that changed the state",
         "exhaustive": True,
         "assumptions": ["capacity 0 is outside the property (capacities 1..C); the three buffers of PushState have capacities 10, 3, 100"],
     },
@@ -124,9 +125,10 @@ PROPS = {
             {"name": "registry", "args": ["__PID__"]},
             {"name": "parse", "args": []},
             {"name": "parsebound", "args": []},
+            {"name": "parsecustom", "args": []},
         ],
         "signature": lambda req: "parse",
-        "rule": "program texts: 60% balanced token trees rendered with random Unicode white space (incl. U+00A0, U+2003, U+3000, U+0085, U+2028), 40% arbitrary token sequences with arbitrary paren balance; tokens: every vector-literal corner (INT[, INT[], INT[1, BOOL[2], FLOAT[NaN], multi-byte before ']' and as last char), numeric corner cases (+5, -0, 2147483648, 1., .5, ., nan, -inf), registered instruction names, multi-byte names, 10^4-character tokens; parsed onto empty and non-empty states; the EXEC stack is compared with an independent recursive-descent tree for balanced inputs, all other stacks with the pre-state; non-trivial = the text contains at least one token; one text in 60 is a chain of 60-300 nested lists with tokens on the way down and up",
+        "rule": "program texts: 60% balanced token trees rendered with random Unicode white space (incl. U+00A0, U+2003, U+3000, U+0085, U+2028), 40% arbitrary token sequences with arbitrary paren balance; tokens: every vector-literal corner (INT[, INT[], INT[1, BOOL[2], FLOAT[NaN], multi-byte before ']' and as last char), numeric corner cases (+5, -0, 2147483648, 1., .5, ., nan, -inf), registered instruction names, multi-byte names, 10^4-character tokens; parsed onto empty and non-empty states; the EXEC stack is compared with an independent recursive-descent tree for balanced inputs, all other stacks with the pre-state; non-trivial = the text contains at least one token; one text in 60 is a chain of 60-300 nested lists with tokens on the way down and up; `parsebound`: text parsed into states that already bind the names it mentions; `parsecustom`: the host registered further instructions (InstructionSet::add) whose names also fall under a later lexical rule ('7', '2.5', 'inf', 'TRUE') or an earlier one ('INT[1]'): the documented ORDER of the rules decides",
         "assumptions": ["nesting depth <= 4 in generated trees (native stack depth is outside the model)"],
     },
     "C11": {
